@@ -35,29 +35,36 @@ struct Canon {
   template <class T, class Dl> struct is_smart_ptr<std::unique_ptr<T, Dl>> : std::true_type {};
 };
 
+
+// A private member is keyed through VF_KEY: when a refactoring removes or renames it the harness still builds (the member is then keyed as
+// "absent"; histories up to the no-de-duplication depth are explored regardless of the key, s3.2), instead of failing to compile.
+template <class C, class O, class F> auto key_member(C &c, const O &o, F f, int) -> decltype(f(o), void()) { c.any(f(o)); }
+template <class C, class O, class F> void key_member(C &c, const O &, F, long) { c.tag("absent"); }
+#define VF_KEY(c, obj, name) ::vf::key_member(c, obj, [](const auto &o_) -> decltype((o_.name)) { return o_.name; }, 0)
+
 template <int DIM, int ORDER> void canon_add(Canon &c, const PPolyND<DIM, ORDER> &p) {
-  c.tag("PP"); c.any(p.breakpoints_); c.any(p.coefficients_);
-  c.any(p.derivative_coeffs_);
-  c.any(p.derivative_factor_table_); c.any(p.derivative_factor_table_ready_); c.any(p.derivative_coeffs_ready_);
-  c.any(p.num_segments_); c.any(p.num_coeffs_); c.any(p.is_initialized_);
+  c.tag("PP"); VF_KEY(c, p, breakpoints_); VF_KEY(c, p, coefficients_);
+  VF_KEY(c, p, derivative_coeffs_);
+  VF_KEY(c, p, derivative_factor_table_); VF_KEY(c, p, derivative_factor_table_ready_); VF_KEY(c, p, derivative_coeffs_ready_);
+  VF_KEY(c, p, num_segments_); VF_KEY(c, p, num_coeffs_); VF_KEY(c, p, is_initialized_);
 }
 template <int DIM> void canon_add(Canon &c, const BoundaryConditions<DIM> &b) {
   c.mat(b.start_velocity); c.mat(b.start_acceleration); c.mat(b.start_jerk); c.mat(b.end_velocity); c.mat(b.end_acceleration); c.mat(b.end_jerk);
 }
 template <int DIM> void canon_add(Canon &c, const CubicSplineND<DIM> &s) {
-  c.tag("CS"); c.any(s.time_segments_); c.any(s.spatial_points_); canon_add(c, s.boundary_velocities_); c.any(s.num_segments_); c.any(s.coeffs_);
-  c.any(s.is_initialized_); c.any(s.start_time_); c.any(s.cumulative_times_); canon_add(c, s.trajectory_);
-  c.any(s.internal_derivatives_); c.any(s.point_diffs_); c.any(s.cached_c_prime_); c.any(s.cached_inv_denoms_); c.any(s.ws_lambda_); c.any(s.time_powers_);
+  c.tag("CS"); VF_KEY(c, s, time_segments_); VF_KEY(c, s, spatial_points_); canon_add(c, s.boundary_velocities_); VF_KEY(c, s, num_segments_); VF_KEY(c, s, coeffs_);
+  VF_KEY(c, s, is_initialized_); VF_KEY(c, s, start_time_); VF_KEY(c, s, cumulative_times_); canon_add(c, s.trajectory_);
+  VF_KEY(c, s, internal_derivatives_); VF_KEY(c, s, point_diffs_); VF_KEY(c, s, cached_c_prime_); VF_KEY(c, s, cached_inv_denoms_); VF_KEY(c, s, ws_lambda_); VF_KEY(c, s, time_powers_);
 }
 template <class S> void canon_add_blocksolver(Canon &c, const S &s) {
-  c.any(s.time_segments_); c.any(s.cumulative_times_); c.any(s.start_time_); c.any(s.spatial_points_); c.any(s.point_diffs_); canon_add(c, s.boundary_);
-  c.any(s.num_segments_); c.any(s.is_initialized_); c.any(s.coeffs_); canon_add(c, s.trajectory_);
-  c.any(s.D_inv_cache_); c.any(s.U_blocks_cache_); c.any(s.L_blocks_cache_); c.any(s.D_inv_T_mul_L_next_T_cache_);
-  c.any(s.internal_vel_); c.any(s.internal_acc_); c.any(s.time_powers_);
-  c.any(s.ws_rhs_mod_); c.any(s.ws_solution_); c.any(s.ws_lambda_); c.any(s.ws_gd_internal_);
+  VF_KEY(c, s, time_segments_); VF_KEY(c, s, cumulative_times_); VF_KEY(c, s, start_time_); VF_KEY(c, s, spatial_points_); VF_KEY(c, s, point_diffs_); canon_add(c, s.boundary_);
+  VF_KEY(c, s, num_segments_); VF_KEY(c, s, is_initialized_); VF_KEY(c, s, coeffs_); canon_add(c, s.trajectory_);
+  VF_KEY(c, s, D_inv_cache_); VF_KEY(c, s, U_blocks_cache_); VF_KEY(c, s, L_blocks_cache_); VF_KEY(c, s, D_inv_T_mul_L_next_T_cache_);
+  VF_KEY(c, s, internal_vel_); VF_KEY(c, s, internal_acc_); VF_KEY(c, s, time_powers_);
+  VF_KEY(c, s, ws_rhs_mod_); VF_KEY(c, s, ws_solution_); VF_KEY(c, s, ws_lambda_); VF_KEY(c, s, ws_gd_internal_);
 }
 template <int DIM> void canon_add(Canon &c, const QuinticSplineND<DIM> &s) { c.tag("QS"); canon_add_blocksolver(c, s); }
-template <int DIM> void canon_add(Canon &c, const SepticSplineND<DIM> &s) { c.tag("SS"); canon_add_blocksolver(c, s); c.any(s.internal_jerk_); }
+template <int DIM> void canon_add(Canon &c, const SepticSplineND<DIM> &s) { c.tag("SS"); canon_add_blocksolver(c, s); VF_KEY(c, s, internal_jerk_); }
 
 template <class T> std::string canon_of(const T &x) { Canon c; canon_add(c, x); return c.s; }
 
@@ -77,9 +84,9 @@ template <class WS> void canon_add_ws(Canon &c, const WS &w) {
 }
 // optimizer: all private members; pointers only by ROLE (own default map / a user map / null), never by address
 template <class Opt> void canon_add_opt(Canon &c, const Opt &o, bool with_ws_contents) {
-  c.tag("OPT"); c.any(o.ref_times_); c.any(o.ref_waypoints_); canon_add(c, o.ref_bc_); c.any(o.start_time_);
+  c.tag("OPT"); VF_KEY(c, o, ref_times_); VF_KEY(c, o, ref_waypoints_); canon_add(c, o.ref_bc_); VF_KEY(c, o, start_time_);
   c.i(o.flags_.start_p | o.flags_.start_v << 1 | o.flags_.start_a << 2 | o.flags_.start_j << 3 | o.flags_.end_p << 4 | o.flags_.end_v << 5 | o.flags_.end_a << 6 | o.flags_.end_j << 7);
-  c.any(o.num_segments_); c.any(o.is_valid_); c.any(o.rho_energy_); c.any(o.integral_num_steps_);
+  VF_KEY(c, o, num_segments_); VF_KEY(c, o, is_valid_); VF_KEY(c, o, rho_energy_); VF_KEY(c, o, integral_num_steps_);
   c.i(o.active_time_map_ == &o.default_time_map_ ? 0 : o.active_time_map_ == nullptr ? 2 : 1);
   c.i(o.active_spatial_map_ == &o.default_spatial_map_ ? 0 : o.active_spatial_map_ == nullptr ? 2 : 1);
   c.i(o.internal_ws_ ? 1 : 0); if (o.internal_ws_ && with_ws_contents) canon_add_ws(c, *o.internal_ws_);
